@@ -498,7 +498,44 @@ fn tmp_path(tag: &str) -> std::path::PathBuf {
 fn p_zip_offset(b: &[u8], _: u64) -> R {
     use zipora::blob_store::{BlobStore, ZipOffsetBlobStore};
     let mut c = std::io::Cursor::new(b);
-    ZipOffsetBlobStore::load_from_reader(&mut c).map(|s| vec![s.len() as i128]).map_err(es)
+    // a loaded store is then used: the offset index is read lazily, so its fields are "parsed" by get()
+    ZipOffsetBlobStore::load_from_reader(&mut c).map(|s| {
+        let n = s.len();
+        let mut o = vec![n as i128];
+        for id in [0usize, 1, n / 2, n.wrapping_sub(1)] {
+            o.push(match s.get(id as u32) { Ok(v) => v.len() as i128, Err(_) => -1 });
+        }
+        o
+    }).map_err(es)
+}
+fn p_sorted_uint_vec(b: &[u8], _: u64) -> R {
+    use zipora::blob_store::SortedUintVec;
+    SortedUintVec::from_bytes(b).map(|v| {
+        let n = v.len();
+        let mut o = vec![n as i128];
+        for i in [0usize, 1, n / 2, n.wrapping_sub(2), n.wrapping_sub(1)] {
+            o.push(v.get(i).map(|x| x as i128).unwrap_or(-1));
+            o.push(v.get2(i).map(|x| x.1 as i128).unwrap_or(-1));
+        }
+        let mut blk = vec![0u64; v.config().block_size().min(1 << 12)];
+        o.push(if v.get_block(0, &mut blk).is_ok() { 1 } else { 0 });
+        o
+    }).map_err(es)
+}
+fn seeds_sorted_uint_vec(r: &mut Rng) -> Vec<Seed> {
+    use zipora::blob_store::{SortedUintVecBuilder, SortedUintVecConfig};
+    let mut v = vec![];
+    for (cfg, n) in [(SortedUintVecConfig::default(), 200u64), (SortedUintVecConfig::performance_optimized(), 70), (SortedUintVecConfig::memory_optimized(), 5), (SortedUintVecConfig::default(), 0)] {
+        let mut acc = 0u64;
+        let vals: Vec<u64> = (0..n).map(|_| { acc += r.below(300); acc }).collect();
+        let res = crate::util::guarded(|| -> Option<Vec<u8>> {
+            let mut b = SortedUintVecBuilder::with_config(cfg);
+            for &x in &vals { b.push(x).ok()?; }
+            Some(b.finish().ok()?.to_bytes())
+        });
+        if let Ok(Some(bytes)) = res { v.push(s0(bytes)); }
+    }
+    v
 }
 fn seeds_zip_offset(_r: &mut Rng) -> Vec<Seed> {
     use zipora::blob_store::{ZipOffsetBlobStoreBuilder, ZipOffsetBlobStoreConfig};
@@ -835,6 +872,7 @@ pub fn parsers() -> Vec<Parser> {
         P!("pa_zip/decode_matches", 71, false, true, p_pz_matches, seeds_pz_matches),
         P!("PaZipCompressor::decompress", 0, false, false, p_pazip, seeds_pazip),
         P!("ZipOffsetBlobStore::load_from_reader", 0, false, false, p_zip_offset, seeds_zip_offset),
+        P!("SortedUintVec::from_bytes", 0, false, false, p_sorted_uint_vec, seeds_sorted_uint_vec),
         P!("ZReorderMap::open", 0, false, false, p_reorder_map, seeds_reorder_map),
         P!("MmapVec::open", 0, false, false, p_mmap_vec, seeds_mmap_vec),
         P!("MmapDataInput", 0, false, false, p_mmap_input, seeds_mmap_input),
